@@ -161,8 +161,10 @@ def canon(v):
 class Worker:
     """Deterministic task behaviour: the outcome of the k-th invocation of (function, payload)."""
 
-    def __init__(self, seed, failures=0.25, errors=("A", "B", "States.TaskFailed"), hangs=0.0):
+    def __init__(self, seed, failures=0.25, errors=("A", "B", "States.TaskFailed"), hangs=0.0, stable=False):
         self.seed = seed
+        self.stable = stable          # the outcome does not depend on the attempt number: needed when the same (function, payload) can be requested
+                                      # from several branches, where "the k-th call" is a matter of scheduling
         self.failures = failures
         self.hangs = hangs            # probability that a worker never answers (the task times out)
         self.errors = errors
@@ -174,6 +176,8 @@ class Worker:
         forced = self.forced.get((fname, ptext)) or self.forced.get((fname, None))
         if forced is not None:
             return forced[k] if k < len(forced) else ("ok", {"done": fname})
+        if self.stable:
+            k = 0
         h = int(hashlib.sha1(("%s|%s|%s|%d" % (self.seed, fname, ptext, k)).encode()).hexdigest(), 16)
         if (h % 1000) / 1000.0 < self.failures and k < 3:
             return ("err", self.errors[(h >> 20) % len(self.errors)])
@@ -265,6 +269,8 @@ def cleanup(w):
 def oracle_term(worker, coq_str, coq_json):
     rows = []
     for (fname, ptext), outs in worker.oracle.items():
+        if getattr(worker, "stable", False) and outs:
+            outs = [outs[0]] * 24        # the same outcome whichever call of the semantics asks (the engine may have asked fewer times: cancelled siblings)
         ots = ["(TSucc %s)" % coq_json(o[1]) if o[0] == "ok" else "(TErr %s)" % coq_str("States.Timeout" if o[0] == "hang" else o[1]) for o in outs]
         rows.append("(%s, %s, [%s])" % (coq_str(fname), coq_str(ptext), "; ".join(ots)))
     return "[" + "; ".join(rows) + "]"
